@@ -96,12 +96,82 @@ def run(ctx):
                                                "replay_cmd": "printf '%s |  | %s\\n' | %s verif search" % (c["fen"], ";".join(c["specs"]), C.ENGINE)})
                     violations.append({"replay": rp})
                     break
+    # ---- hunt (engine alone, cache ON): random sparse positions searched in sequences sharing the cache; every chosen move judged by a
+    # mate oracle written in the driver over the engine's board API; that oracle is itself compared with the Coq oracle (mate_facts) on
+    # the corpus and on a sample of the hunted positions each run
+    import json
+    import positions as P
+    from concurrent.futures import ThreadPoolExecutor
+    nh = 30000 if ctx["tier"] == "quick" else 1000000
+    hfens = P.mate_hunt_positions(ctx["seed"], nh)
+    small = [f for f in hfens if sum(ch.isalpha() for ch in f.split()[0]) <= 4]
+    sample = fens + small[:25 if ctx["tier"] == "quick" else 300]
+    rc, so, se = C.driver(["matefacts"], "".join(f + "\n" for f in sample), timeout=600)
+    dfacts = [json.loads(l) for l in so.splitlines() if l.startswith("{")]
+    cvals, lg3 = C.coq_eval_items("c12h", S.HEADER, ["mate_facts %s []" % B.coq_str(f) for f in sample], lambda l: l, nshards=C.NPROC, timeout=1500)
+    nval = 0
+    if rc != 0 or len(dfacts) != len(sample) or cvals is None:
+        rp = C.write_replay(prop, {"broken": "validation of the driver's mate oracle against the Coq oracle could not be evaluated", "log": (se or "")[-800:] + (lg3 or "")[-1200:]})
+        violations.append({"replay": rp, "no_input": True})
+    else:
+        for f, dv, cv in zip(sample, dfacts, cvals):
+            cv = B.norm(cv)
+            if cv is None or dv.get("panic"):
+                continue
+            mating, win2, per = cv[1]
+            nval += 1
+            if (sorted(mating) != sorted(dv["mating"]) or int(win2) != dv["win2"]
+                    or sorted((p_[0], int(p_[1])) for p_ in per) != sorted((a[0], a[1]) for a in dv["allows"])):
+                rp = C.write_replay(prop, {"broken": "the driver's mate oracle disagrees with the Coq mate oracle (model/ChessSearch.v mate_facts)", "fen": f,
+                                           "coq": [sorted(mating), win2], "driver": [sorted(dv["mating"]), dv["win2"]]})
+                violations.append({"replay": rp, "no_input": True})
+                break
+    hseqs = "d3;d4;d4,d3;d2,d4,d3;d3,d3;d1,d2,d4,d3;d3,d4" + (";d5,d3;d6,d3;d5,d4,d3" if ctx["tier"] == "thorough" else ";d5,d3")
+    chunks = [hfens[i::C.NPROC] for i in range(C.NPROC)]
+
+    def hunt(chunk):
+        p_ = C.subprocess.run([C.ENGINE, "verif", "matehunt"], input="".join("%s | %s\n" % (f, hseqs) for f in chunk), capture_output=True, text=True, timeout=7000)
+        res = [json.loads(l) for l in p_.stdout.splitlines() if l.startswith("{")]
+        return list(zip(chunk, res)) if len(res) == len(chunk) else None
+    with ThreadPoolExecutor(max_workers=C.NPROC) as ex:
+        parts = list(ex.map(hunt, chunks))
+    hstats = {"positions": 0, "mate_in_one": 0, "mate_in_two": 0, "avoidable_threat": 0, "panics": 0,
+              "mate_in_two_kept_as_a_longer_mate": 0, "oracle_validated_against_coq": nval, "sequences": hseqs}
+    if any(x is None for x in parts):
+        rp = C.write_replay(prop, {"broken": "mate hunt on the engine did not complete"})
+        violations.append({"replay": rp, "no_input": True})
+    else:
+        nv = 0
+        for f, r_ in (x for part in parts for x in part):
+            hstats["positions"] += 1
+            if r_.get("panic"):
+                hstats["panics"] += 1
+                continue
+            if r_.get("facts"):
+                for k_, nm in enumerate(("mate_in_one", "mate_in_two", "avoidable_threat")):
+                    hstats[nm] += r_["facts"][k_]
+            for v in r_.get("violations", []):
+                if v["clause"] in (20, 30, 40):
+                    # the mate in two was not kept as a mate in two but as a forced mate within 3 / 4 / 5 moves: "keeps a forced mate" holds
+                    hstats["mate_in_two_kept_as_a_longer_mate"] += 1
+                    continue
+                nv += 1
+                if nv <= 3:
+                    what = {1: "a mate in one exists but the chosen move does not mate", 2: "a mate in two exists but after the chosen move no forced mate within five moves remains",
+                            3: "the chosen move allows a mate in one although some legal move avoids it"}[v["clause"]]
+                    rp = C.write_replay(prop, {"kind": "mate-level property on the engine (cache on, hunt)", "fen": f, "searches_sharing_the_cache": v["seq"],
+                                               "search_index": v["k"], "chosen": v["move"], "problem": what,
+                                               "replay_cmd": "printf '%s | %s\\n' | %s verif matehunt" % (f, v["seq"], C.ENGINE)})
+                    violations.append({"replay": rp})
+    stats["hunt"] = hstats
     cov.update(stats)
-    cov["evaluations"] = sum(len(c["specs"]) for c in cases)
+    cov["evaluations"] = sum(len(c["specs"]) for c in cases) + hstats["positions"]
     cov["distinct_nontrivial"] = len(cases)
     cov["rule"] = ("15 sparse positions with a mate in one, a mate in two or an avoidable mate-in-one threat x sequences of searches sharing "
                    "the cache ((3), (4,3), (2,4,3), (3,3), ...): engine vs model (move, score), and the three clauses judged on the engine's "
-                   "choices by a mate oracle evaluated in Coq on the model (mating moves; forced mate within 2-3 moves; replies that mate)")
+                   "choices by a mate oracle evaluated in Coq on the model (mating moves; forced mate within 2-3 moves; replies that mate); "
+                   "hunt: 30 000 (quick) / 1 000 000 (thorough) random sparse positions on the engine alone with the cache ON, each searched in 8-10 sequences "
+                   "sharing the cache, every chosen move judged by a mate oracle over the engine's board API which is compared with the Coq oracle each run")
     cov["samples"].append({"fen": fens[0], "sequences": seqs})
     return SP.finish(prop, gate, violations, cov)
 
